@@ -221,4 +221,38 @@ VF_E void ifw_copy(IFW* out, IF const& o) { new (out) IFW(o); }
 VF_E void ifw_move(IFW* out, IF& o) { new (out) IFW(etl::move(o)); }
 VF_E int ifw_call(IFW const& a, int x) { return a(x); }
 VF_E bool ifw_bool(IFW const& a) { return static_cast<bool>(a); }
+
+// ---- value categories made observable: Mk's move constructor / assignment mark the source (v = -1), a copy does not ----------
+struct Mk {
+    int v;
+    constexpr Mk() noexcept : v(0) { }
+    constexpr explicit Mk(int x) noexcept : v(x) { }
+    constexpr Mk(Mk const& o) noexcept : v(o.v) { }
+    constexpr Mk(Mk&& o) noexcept : v(o.v) { o.v = -1; }
+    constexpr auto operator=(Mk const& o) noexcept -> Mk& { v = o.v; return *this; }
+    constexpr auto operator=(Mk&& o) noexcept -> Mk& { v = o.v; if (this != &o) { o.v = -1; } return *this; }
+};
+struct Cat3 { auto operator()(Mk&&, int) const -> int { return 1; } auto operator()(Mk&, int) const -> int { return 2; } auto operator()(Mk const&, int) const -> int { return 3; } };
+struct FromMk { Mk m; int i; FromMk(Mk mm, int ii) : m(etl::move(mm)), i(ii) { } };
+using TMk = etl::tuple<Mk, int>; using PMk = etl::pair<Mk, int>;
+VF_E void mk_tuple(TMk* out, int a, int b) { new (out) TMk(Mk{a}, b); }
+VF_E void mk_pair(PMk* out, int a, int b) { new (out) PMk(Mk{a}, b); }
+VF_E int mk_tval(TMk const& t) { return etl::get<0>(t).v; }
+VF_E int mk_pval(PMk const& p) { return p.first.v; }
+VF_E int mk_tget_rv(TMk& t) { Mk m(etl::get<0>(etl::move(t))); return m.v; }
+VF_E int mk_tget_lv(TMk& t) { Mk m(etl::get<0>(t)); return m.v; }
+VF_E int mk_tget_clv(TMk const& t) { Mk m(etl::get<0>(t)); return m.v; }
+VF_E int mk_pget_rv(PMk& p) { Mk m(etl::get<0>(etl::move(p))); return m.v; }
+VF_E int mk_pget_lv(PMk& p) { Mk m(etl::get<0>(p)); return m.v; }
+VF_E int mk_apply_rv(TMk& t) { return etl::apply(Cat3{}, etl::move(t)); }
+VF_E int mk_apply_lv(TMk& t) { return etl::apply(Cat3{}, t); }
+VF_E int mk_apply_clv(TMk const& t) { return etl::apply(Cat3{}, t); }
+VF_E int mk_from_rv(TMk& t) { auto r = etl::make_from_tuple<FromMk>(etl::move(t)); return r.m.v; }
+VF_E int mk_from_lv(TMk& t) { auto r = etl::make_from_tuple<FromMk>(t); return r.m.v; }
+VF_E void mk_tmove(TMk* out, TMk& o) { new (out) TMk(etl::move(o)); }
+VF_E void mk_tcopy(TMk* out, TMk const& o) { new (out) TMk(o); }
+VF_E void mk_pmove(PMk* out, PMk& o) { new (out) PMk(etl::move(o)); }
+VF_E void mk_pcopy(PMk* out, PMk const& o) { new (out) PMk(o); }
+VF_E void mk_passign_rv(PMk& a, PMk& b) { a = etl::move(b); }
+VF_E void mk_passign_lv(PMk& a, PMk const& b) { a = b; }
 }
